@@ -12,6 +12,7 @@ EXPLANATION = (
     "faucet_dedup_pseudocoin is used only by handle_faucet_tx and no remove_coin is keyed by it."
     " The gate atoms are read from `==`/`!=` comparisons and from `matches!`/`match` on the enum (variant atoms)."
     " R3 `grandfathered/replayable`: with the grandfathered hash forced, Ok is reachable without a marker being inserted (recorded finding D24)."
+    ' R3 `lookup/every-path`: no faucet reaches Ok around the marker lookup. R4b: a marker cannot be spent — check_tx_validity reaches Ok only through its loop over the inputs, for every kind of transaction.'
 )
 NOT_DECIDED = ["replay after restart relies on C08 (the marker lives in the persisted coin tree)",
                "that no transaction input can equal the marker's CoinID and pass its covenant (covenant hash zero has no preimage: hash assumption)"]
